@@ -192,6 +192,7 @@ func c05SndRun(t *testing.T, ops []string, o *Out) {
 				}
 				synctest.Wait()
 			case name == "adv" && len(fs) == 2:
+				spend()
 				us, ok := c05ParseU(m["us"], 1<<40)
 				if !ok {
 					o.P("bad-op")
